@@ -248,6 +248,9 @@ class Executor:
             if val in BUILTIN_EXC_BASES:
                 return VClass(val)
             return self.builtins.imported(val)
+        if kind == 'const' and isinstance(val, ast.Call) and isinstance(val.func, ast.Name) \
+                and val.func.id == 'namedtuple':
+            return VClass(f'{module}.{name}')       # Keyring = namedtuple('Keyring', [...]): a value class
         if kind == 'const':
             key = (module, name)
             if key not in self.static_cache:
@@ -917,6 +920,8 @@ class Executor:
         q = cls.qual
         if q in REC_OF_CLASS:
             fq = self.repo.find_method(q, '__init__')
+            if fq is None and getattr(RECS[REC_OF_CLASS[q][0]], 'namedtuple', False):
+                return self.builtins.construct_namedtuple(self, q, args, kwargs, p, node)
             if fq is None:
                 raise VError(f'{q} has no __init__')
             if fq in INLINE:
@@ -1234,6 +1239,19 @@ class Executor:
                 p.ghost['__asg__'] = cnt
                 for key in (target.id, f'{target.id}@{cnt[target.id]}'):
                     for n_l, src in enumerate(after.get(key, [])):
+                        if isinstance(src, dict) and 'cases' in src:
+                            # proof by cases: the alternatives are shown exhaustive (obligation), then the
+                            # path continues once per alternative (keeps table lookups linear)
+                            cctx = self.ctx(p)
+                            alts = [self.spec.bool(ast.parse(a, mode='eval').body, cctx) for a in src['cases']]
+                            self.oblige(p, z3.Or(alts), f'{self.func.qual.split(".", 1)[1]}/after:{key}[{n_l}]/exhaustive',
+                                        c.props, 'assert', target.lineno)
+                            out = []
+                            for i_a, a in enumerate(alts):
+                                q = p.fork()
+                                if q.assume(a, ('case', target.lineno, key, i_a)):
+                                    out.append(Res(q, VNone))
+                            return out
                         if isinstance(src, dict):
                             # {'when': cond, 'rewrite': expr}: on paths where cond holds, name == expr is
                             # proved (obligation) and the local is re-bound to the structured term expr
@@ -1530,9 +1548,11 @@ class Executor:
     def s_For(self, s, p):
         if s.orelse:
             raise Unsupported(f'for/else at {self.where(s)}')
-        k, ls = self.loop_spec(s)
-
         def kit(p2, it):
+            if isinstance(it, VTuple):
+                # iteration over a literal tuple is unrolled exactly: no loop contract needed
+                return self.builtins.for_unrolled(self, s, it.items, p2)
+            k, ls = self.loop_spec(s)
             return self.builtins.for_loop(self, s, it, p2, k, ls)
         return self.res_to_out(self.eval(s.iter, p), kit)
 
